@@ -299,6 +299,7 @@ type Frame struct {
 	parent   *Frame
 	paramClos map[*ssa.Parameter]*closureRef
 	fmtSlice  ssa.Value
+	inResolve bool
 }
 
 type closureRef struct {
